@@ -188,7 +188,9 @@ Fixpoint mut_walk (fuel : nat) (off endoff : Z) (b : list Z) : result (list cent
     | HErr => Raise EMutagen
     | HChunk raw ds =>
       let e := mkCe off raw ds in
-      rbind (mut_walk k (off + ce_size e) endoff (zdrop (ce_size e) b)) (fun es => Ok (e :: es))
+      (* file[next_offset:] -- a seek past EOF reads nothing (written so that a huge declared size is never counted out) *)
+      let rest := if zlen b <? ce_size e then [] else zdrop (ce_size e) b in
+      rbind (mut_walk k (off + ce_size e) endoff rest) (fun es => Ok (e :: es))
     end
   end.
 
@@ -217,6 +219,7 @@ Definition find_id3 (es : list centry) : option centry := find (fun e => is_id3 
      resize_bytes(fileobj, old_size, new + new % 2, data_offset)
      _update_size: data_size = new; seek(offset + 4); write_size()      -> struct.error beyond the field width
                    parent._update_size(self.size - old_size)            -> the root's size field at offset 4
+                                                                          (InvalidChunk if it would become negative)
      write: seek(data_offset); write(data); pad byte b'\x00' at data_offset + data_size *)
 Definition resize_write (f : list Z) (rds : Z) (e : centry) (data : list Z) : result (list Z) :=
   let data_offset := ce_off e + hsize in
@@ -225,6 +228,7 @@ Definition resize_write (f : list Z) (rds : Z) (e : centry) (data : list Z) : re
   let f1 := splice f data_offset old_size (data ++ zeros (new mod 2)) in
   if negb (fits new) then Raise EStruct else
   let rds' := rds + ((hsize + new + new mod 2) - ce_size e) in
+  if rds' <? 0 then Raise EMutagen else                       (* _update_size: InvalidChunk("Invalid chunk size") *)
   if negb (fits rds') then Raise EStruct else
   Ok (patch (patch f1 (ce_off e + 4) (enc new)) 4 (enc rds')).
 
@@ -254,23 +258,24 @@ Definition iff_save (f : list Z) (tag : list Z) : result (list Z) :=
 
 (* the same with _prepare_data modelled (C09): available = chunk.data_size, start = chunk.data_offset *)
 Definition iff_padinfo (t : list Z * Z * centry) (framedata : list Z) : Z * Z :=
-  match t with (f1, _, e) => pad_info framedata (ce_ds e) (zlen f1 - (ce_off e + hsize)) end.
+  match t with (f1, _, e) => pad_info framedata (ce_ds e) (trailing_size (zlen f1) (ce_off e + hsize) (ce_ds e)) end.
 Definition iff_save_cb (f : list Z) (framedata : list Z) (v2_version : Z) (cb : Z -> Z -> Z) : result (list Z) :=
   rbind (iff_target f) (fun t => match t with (f1, rds, e) =>
-  rbind (id3_prepare framedata v2_version cb (ce_ds e) (zlen f1 - (ce_off e + hsize))) (fun tag =>
+  rbind (id3_prepare framedata v2_version cb (ce_ds e) (trailing_size (zlen f1) (ce_off e + hsize) (ce_ds e))) (fun tag =>
   resize_write f1 rds e tag) end).
 
 (* IffChunk.delete of the first tag chunk (KeyError when absent: nothing happens):
-     delete_bytes(fileobj, self.size, self.offset)      -> ValueError when the chunk overruns the file
-     parent._update_size(-self.size)                    -> struct.error when the root size would be negative *)
+     delete_bytes(fileobj, self.size, self.offset)      -> InvalidChunk when the chunk overruns the file
+     parent._update_size(-self.size)                    -> InvalidChunk when the root size would be negative *)
 Definition iff_delete (f : list Z) : result (list Z) :=
   rbind (mut_root f) (fun rds =>
   rbind (mut_chunks f rds) (fun es =>
   match find_id3 es with
   | None => Ok f
   | Some e =>
-    if zlen f <? ce_off e + ce_size e then Raise EValue else
+    if zlen f <? ce_off e + ce_size e then Raise EMutagen else
     let f1 := splice f (ce_off e) (ce_size e) [] in
+    if rds - ce_size e <? 0 then Raise EMutagen else
     if negb (fits (rds - ce_size e)) then Raise EStruct else
     Ok (patch f1 4 (enc (rds - ce_size e)))
   end)).
